@@ -12,7 +12,6 @@ import (
 	"net/http"
 	"net/url"
 	"sort"
-	"strconv"
 	"strings"
 
 	"google.golang.org/genproto/googleapis/api/annotations"
@@ -434,7 +433,10 @@ func isSingularMessage(fd protoreflect.FieldDescriptor) bool {
 
 func quote(raw []byte) []byte {
 	if n := len(raw); n > 0 && (raw[0] != '"' || raw[n-1] != '"') {
-		raw = strconv.AppendQuote(raw[:0], string(raw))
+		// JSON quoting: strconv.Quote emits Go-only escapes (\a, \x00, \U...).
+		if b, err := json.Marshal(string(raw)); err == nil {
+			raw = b
+		}
 	}
 	return raw
 }
